@@ -203,9 +203,9 @@ fn gen_steps(rng: &mut rand::rngs::StdRng) -> Vec<Step> {
             }
             11 => {
                 names += 1;
-                let pool = Pool { cells: vec!["Sheet1!$A$1".into(), "Sheet2!$B$2".into()], ranges: vec!["Sheet1!$A$1:$B$3".into()] };
-                let f = core_expr(rng, 2, &pool);
-                Step::Name(format!("myname{names}"), all_prints(&f, "="))
+                // the engine accepts a single reference or range as the formula of a name
+                let f = F::Ref((*pick(rng, &["Sheet1!$A$1", "Sheet2!$B$2", "Sheet1!$A$1:$B$3"])).to_string());
+                Step::Name(format!("myname{names}"), all_prints(&f, ""))
             }
             12 => Step::Rename(s, (*pick(rng, &["Data", "My Sheet", "Hoja 1", "Été", "WAHR", "Sum"])).to_string() + &format!("{}", rng.gen_range(0..3))),
             13 => Step::InsertRows(s, rng.gen_range(1..=5), rng.gen_range(1..=2)),
